@@ -237,6 +237,28 @@ func (w *World) foldRound(overlay map[string][]byte, st *foldState) map[string][
 			foldNotes = append(foldNotes, fmt.Sprintf("helper folding: call of %s.%s in %s %s", rel, s.callee.Name(), strings.TrimPrefix(fname, w.Repo+"/"), how))
 		}
 	}
+	// local closures that are only ever called (`flush := func() error {...}` ... `flush()`): the calls become
+	// immediately-invoked copies of the literal, which the unfolding below turns into straight-line code
+	for _, p := range w.Pkgs {
+		if tab.Funcs[relOfPkg(p.Types)] == nil {
+			continue
+		}
+		for _, f := range p.Syntax {
+			fname := w.Fset.Position(f.Pos()).Filename
+			if _, changed := out[fname]; changed || strings.HasSuffix(fname, "_test.go") {
+				continue
+			}
+			src, ok := overlay[fname]
+			if !ok {
+				src, _ = os.ReadFile(fname)
+			}
+			if b, name := foldLocalClosure(w.Fset, p.Types, p.TypesInfo, f, src); b != nil {
+				b2, _ := unliteralize(fname, b)
+				out[fname] = b2
+				foldNotes = append(foldNotes, fmt.Sprintf("helper folding: the calls of the local closure %s in %s are replaced by its body", name, strings.TrimPrefix(fname, w.Repo+"/")))
+			}
+		}
+	}
 	if len(out) == 0 {
 		// nothing left to inline: drop the declarations of helpers that are no longer called, so that the rules do
 		// not analyse the leftovers as functions of their own
@@ -481,4 +503,127 @@ func foldDebug(format string, args ...any) {
 	if os.Getenv("VERIF_FOLD_DEBUG") != "" {
 		fmt.Fprintf(os.Stderr, "fold: "+format+"\n", args...)
 	}
+}
+
+// foldLocalClosure rewrites one local closure of the file: a variable defined once as a function literal
+// (`name := func(...) ... {...}`) every use of which is a plain call. Each call gets a copy of the literal in place
+// of the variable and the definition is removed. The variables the literal captures must denote the same objects
+// at every call (no shadowing in between).
+func foldLocalClosure(fset *token.FileSet, pkg *types.Package, info *types.Info, f *ast.File, src []byte) ([]byte, string) {
+	off := func(p token.Pos) int { return fset.Position(p).Offset }
+	if len(src) != fset.File(f.Pos()).Size() {
+		return nil, ""
+	}
+	type cand struct {
+		as  *ast.AssignStmt
+		lit *ast.FuncLit
+		obj types.Object
+	}
+	var cands []cand
+	ast.Inspect(f, func(n ast.Node) bool {
+		blk, ok := n.(*ast.BlockStmt)
+		if !ok {
+			return true
+		}
+		for _, st := range blk.List {
+			as, ok := st.(*ast.AssignStmt)
+			if !ok || as.Tok != token.DEFINE || len(as.Lhs) != 1 || len(as.Rhs) != 1 {
+				continue
+			}
+			id, ok1 := as.Lhs[0].(*ast.Ident)
+			lit, ok2 := as.Rhs[0].(*ast.FuncLit)
+			if !ok1 || !ok2 || id.Name == "_" || info.Defs[id] == nil || litParamCount(lit) < 0 {
+				continue
+			}
+			cands = append(cands, cand{as, lit, info.Defs[id]})
+		}
+		return true
+	})
+	for _, c := range cands {
+		var calls []*ast.CallExpr
+		ok := true
+		var stack []ast.Node
+		ast.Inspect(f, func(n ast.Node) bool {
+			if n == nil {
+				stack = stack[:len(stack)-1]
+				return true
+			}
+			stack = append(stack, n)
+			id, isID := n.(*ast.Ident)
+			if !isID || info.Uses[id] != c.obj {
+				return true
+			}
+			if id.Pos() >= c.lit.Pos() && id.End() <= c.lit.End() {
+				ok = false // recursive
+				return true
+			}
+			if len(stack) < 2 {
+				ok = false
+				return true
+			}
+			call, isCall := stack[len(stack)-2].(*ast.CallExpr)
+			if !isCall || call.Fun != ast.Expr(id) || call.Ellipsis.IsValid() || len(call.Args) != litParamCount(c.lit) {
+				ok = false
+				return true
+			}
+			if len(stack) >= 3 {
+				switch stack[len(stack)-3].(type) {
+				case *ast.GoStmt, *ast.DeferStmt:
+					ok = false
+				}
+			}
+			calls = append(calls, call)
+			return true
+		})
+		if !ok || len(calls) == 0 {
+			continue
+		}
+		// captured variables must not be shadowed at a call
+		ast.Inspect(c.lit, func(n ast.Node) bool {
+			id, isID := n.(*ast.Ident)
+			if !isID {
+				return true
+			}
+			o := info.Uses[id]
+			if o == nil || o.Pkg() == nil || o.Parent() == nil || o.Parent() == pkg.Scope() || o.Parent() == types.Universe {
+				return true
+			}
+			if o.Pos() >= c.lit.Pos() && o.Pos() <= c.lit.End() {
+				return true // the literal's own variable
+			}
+			if _, isVar := o.(*types.Var); !isVar {
+				return true
+			}
+			for _, call := range calls {
+				inner := pkg.Scope().Innermost(call.Pos())
+				if inner == nil {
+					ok = false
+					continue
+				}
+				if _, found := inner.LookupParent(id.Name, call.Pos()); found != o {
+					ok = false
+				}
+			}
+			return true
+		})
+		if !ok {
+			continue
+		}
+		litText := string(src[off(c.lit.Pos()):off(c.lit.End())])
+		type edit struct {
+			from, to int
+			text     string
+		}
+		edits := []edit{{off(c.as.Pos()), off(c.as.End()), ""}}
+		for _, call := range calls {
+			edits = append(edits, edit{off(call.Fun.Pos()), off(call.Fun.End()), litText})
+		}
+		sort.Slice(edits, func(i, j int) bool { return edits[i].from > edits[j].from })
+		out := append([]byte{}, src...)
+		for _, e := range edits {
+			out = append(out[:e.from], append([]byte(e.text), out[e.to:]...)...)
+		}
+		return out, c.obj.Name()
+	}
+	return nil, ""
 }
